@@ -15,7 +15,7 @@ use crate::ast::{build, walk, StrEnv, T};
 use crate::c06::spec_type;
 use crate::common::*;
 use crate::desc::{build_desc, D};
-use crate::keys::{DefEnv, KeyForm};
+use crate::keys::{DefEnv, KeyForm, PkEnv};
 use crate::sat::key_partitions;
 use crate::terms::{explore, Alphabet, Cx};
 
@@ -665,6 +665,92 @@ fn inclusion(rep: &Report, n: usize) -> Census {
     cen
 }
 
+/// Limit ladders: conjunction chains that cross each consensus / standardness limit of their context
+/// by one step; each of the context's four validity functions must refuse exactly when the script's
+/// (separately validated) figure exceeds the Bitcoin limit, given here as literal numbers.
+fn limit_ladders(rep: &Report) -> Census {
+    use miniscript::ScriptContext;
+    let mut cen = Census::new();
+    let b = |t: T| Box::new(t);
+    // and_v(v:X1, and_v(v:X2, ... Xn))
+    let chain = |leaves: Vec<T>| -> T {
+        let mut it = leaves.into_iter().rev();
+        let mut acc = it.next().unwrap();
+        for l in it {
+            acc = T::AndV(b(T::Verify(b(l))), b(acc));
+        }
+        acc
+    };
+    let pk = |i: usize| T::Check(b(T::PkK(format!("K{}", i))));
+    let pkh = |i: usize| T::Check(b(T::PkH(format!("K{}", i))));
+    macro_rules! ladder {
+        ($ctx:ty, $name:expr, $form:expr, $terms:expr, $limits:expr) => {{
+            for t in $terms {
+                let env = PkEnv { form: $form };
+                let ms = match build::<bitcoin::PublicKey, $ctx>(&t, &env) {
+                    Ok(m) => m,
+                    Err(_) => {
+                        // from_ast itself applies the global consensus rules
+                        bump(&mut cen, "ladder_terms_refused_by_from_ast");
+                        continue;
+                    }
+                };
+                bump(&mut cen, "ladder_terms");
+                let size = ms.encode().len();
+                let ops = ms.ext.sat_data.map(|d| d.max_exec_op_count + ms.ext.static_ops);
+                let items = ms.max_satisfaction_witness_elements().ok();
+                let ssig = ms.ext.sat_data.map(|d| d.max_script_sig_size);
+                let (gc, gp, lc, lp): (usize, usize, usize, Option<(&str, usize)>) = $limits;
+                let exp = [
+                    ("check_global_consensus_validity", size > gc, <$ctx>::check_global_consensus_validity(&ms).is_err()),
+                    ("check_global_policy_validity", size > gp, <$ctx>::check_global_policy_validity(&ms).is_err()),
+                    ("check_local_consensus_validity", ops.map(|o| o > lc).unwrap_or(true), <$ctx>::check_local_consensus_validity(&ms).is_err()),
+                    (
+                        "check_local_policy_validity",
+                        match lp {
+                            Some(("scriptsig", l)) => ssig.map(|x| x > l).unwrap_or(true),
+                            Some((_, l)) => items.map(|x| x > l).unwrap_or(true),
+                            None => false,
+                        },
+                        <$ctx>::check_local_policy_validity(&ms).is_err(),
+                    ),
+                ];
+                for (f, want, got) in exp {
+                    bump(&mut cen, "ladder_checks");
+                    if want != got {
+                        rep.violation(Violation {
+                            key: format!("C12|ladder|{}|{}|n={}", $name, f, t.keys().len()),
+                            class: format!("limit-function-{}-{}", $name, f),
+                            what: format!("{}::{} {} although script size {}, opcodes {:?}, witness items {:?}, scriptSig {:?} (limits: size {} / {}, opcodes {}, {:?})", $name, f, if got { "refuses" } else { "accepts" }, size, ops, items, ssig, gc, gp, lc, lp),
+                            case: json!({"ctx": $name, "function": f, "keys": t.keys().len(), "script_size": size}),
+                        });
+                    }
+                }
+            }
+        }};
+    }
+    let range = |a: usize, z: usize| (a..=z).collect::<Vec<_>>();
+    // Legacy (P2SH): redeem script 520 bytes, 201 opcodes, scriptSig 1650 bytes (standardness)
+    let mut leg: Vec<T> = vec![];
+    for n in range(10, 16) {
+        leg.push(chain((1..=n).map(pk).collect()));
+    }
+    for n in range(9, 22) {
+        leg.push(chain((1..=n).map(pkh).collect()));
+    }
+    ladder!(Legacy, "Legacy", KeyForm::Compressed, leg.clone(), (520, usize::MAX, 201, Some(("scriptsig", 1650))));
+    ladder!(Legacy, "Legacy", KeyForm::Uncompressed, leg, (520, usize::MAX, 201, Some(("scriptsig", 1650))));
+    // Segwit v0 (P2WSH): 10000 bytes consensus, 3600 bytes / 100 witness items standardness, 201 opcodes
+    let mut seg: Vec<T> = vec![];
+    for n in [97usize, 98, 99, 100, 101, 102, 103, 104, 199, 200, 201, 202, 203, 284, 285, 286, 287] {
+        seg.push(chain((1..=n).map(pk).collect()));
+    }
+    ladder!(Segwitv0, "Segwitv0", KeyForm::Compressed, seg.clone(), (10000, 3600, 201, Some(("items", 100))));
+    // Bare: 10000 bytes, 201 opcodes
+    ladder!(BareCtx, "Bare", KeyForm::Compressed, seg, (10000, usize::MAX, 201, None));
+    cen
+}
+
 /// (4) lattice laws and monotonicity
 fn lattice(rep: &Report, n: usize) -> Census {
     let mut cen = Census::new();
@@ -844,6 +930,7 @@ pub fn run(tier: Tier) -> i32 {
     transitions += t;
     let cen = inclusion(&rep, n_acc.min(5));
     rep.merge_counts(&cen);
+    rep.merge_counts(&limit_ladders(&rep));
     let cen = lattice(&rep, n_mono);
     rep.merge_counts(&cen);
     rep.sample(json!({"switches": SWITCHES.iter().map(|s| format!("{:?}", s)).collect::<Vec<_>>()}));
